@@ -121,7 +121,8 @@ class RunRecord(object):
         self.wire = {e: bytes(runner.sysm.ep[e].sock.sent) for e in 'AB'}
         self.snap = {e: runner.sysm.snapshot(e) for e in 'AB'}
         self.escaped = list(runner.sysm.escaped)
-        self.queued = {e: [TC.data_bytes(m[1]) for m in runner.mops[e] if m[0] == 'OSend'] for e in 'AB'}
+        # bundles accepted for sending (a call refused with an error to the caller queues nothing)
+        self.queued = {e: list(runner.accepted[e]) for e in 'AB'}
         self.conf = runner.conf
         self.rx_store = {}
         for e in 'AB':
